@@ -24,6 +24,7 @@ import (
 	"os"
 	"path/filepath"
 	"sort"
+	"time"
 
 	"github.com/nspcc-dev/neofs-node/pkg/local_object_storage/shard/mode"
 	"github.com/nspcc-dev/neofs-node/verif/lib/ev"
@@ -295,6 +296,12 @@ func runJob(j job) jobRes {
 	}
 	stream := corrupt(d, j)
 	out := jobRes{R: make([]restoreRes, len(j.Ignore))}
+	t0 := time.Now()
+	defer func() {
+		if dt := time.Since(t0); dt > time.Second && os.Getenv("C46_DEBUG") != "" {
+			fmt.Fprintf(os.Stderr, "slow job %v: %+v absurd=%v\n", dt, j, out.R[0].Absurd)
+		}
+	}()
 	for i, ig := range j.Ignore {
 		if i > 0 && j.CorrOff < 0 && !exact(d, out.R[i-1]) {
 			// The strict run already mis-restored an intact dump. With ignoreErrors a mis-framed
@@ -388,7 +395,11 @@ func main() {
 		{"1obj-wc-cached", 1, true, 0}, {"2obj-wc-cached", 2, true, 0}, {"4obj-wc-2flushed", 4, true, 2}, {"3obj-wc-1flushed", 3, true, 1},
 	}
 	for _, c := range contents {
+		t0 := time.Now()
 		d, err := buildDump(c)
+		if os.Getenv("C46_DEBUG") != "" {
+			fmt.Fprintln(os.Stderr, "buildDump", c.Name, time.Since(t0))
+		}
 		if err != nil {
 			fatal("%v", err)
 		}
@@ -404,6 +415,9 @@ func main() {
 			fatal("empty image: %v", err)
 		}
 		emptyWC[wc] = dir
+		if os.Getenv("C46_DEBUG") != "" {
+			fmt.Fprintln(os.Stderr, "empty image", wc, time.Now().Format("15:04:05.000"))
+		}
 	}
 
 	classes := map[string]int{}
@@ -524,7 +538,12 @@ func main() {
 		}
 		r.LoadReplay(&rp)
 		rp.Job.Ignore = []bool{rp.IgnoreErrors}
-		check(rp.Job, runJob(rp.Job))
+		t0 := time.Now()
+		jr := runJob(rp.Job)
+		if os.Getenv("C46_DEBUG") != "" {
+			fmt.Fprintln(os.Stderr, "runJob", time.Since(t0))
+		}
+		check(rp.Job, jr)
 		finish()
 	}
 
@@ -596,9 +615,18 @@ func main() {
 		}
 	}
 
+	dbg := func(what string) {
+		if os.Getenv("C46_DEBUG") != "" {
+			fmt.Fprintln(os.Stderr, time.Now().Format("15:04:05.000"), what)
+		}
+	}
+	dbg(fmt.Sprintf("jobs=%d", len(jobs)))
 	pool := procpool.Start(runJob)
+	dbg("pool started")
 	res, done := pool.Map(jobs, r.Expired)
+	dbg("map done")
 	pool.Close()
+	dbg("pool closed")
 	complete := true
 	for i := range jobs {
 		if !done[i] {
